@@ -1,4 +1,4 @@
-CLAIMED = False
+CLAIMED = True
 SPEC = {
     "id": "C38",
     "props": "PlzVerif/Props/C38.lean",
@@ -20,3 +20,17 @@ SPEC = {
         "programs with subinclude are not evaluated in-process (they need a build); they are covered by the simplify theorems, the token comparison and the idempotence check",
     ],
 }
+
+MUTATIONS = """
+Dry-runs on a scratch copy (VERIF_REPO=/var/tmp/c38dev ./check C38 quick, findings_inbox/C38.jsonl loaded):
+ M1 fmt.go simplify: i := len(f.Stmt) - 2 -> - 3              RED  failing input `simp o;o;s:-;s:-` (simplify-leaves-adjacent-subincludes;
+    the last pair is never merged); C38_facts_ok (loopInit) breaks too
+ M2 fmt.go simplify: append(call.List, next.List...) -> append(next.List, call.List...)
+                                                              RED  failing input `simp o;o;s://a:b;s://c:d,//e:f` (simplify-changes-label-sequence)
+ M5 fmt.go simplify: slices.Delete(f.Stmt, i+1, i+2) -> (i, i+1)   RED  failing input `simp o;o;s://a:b;s:-` (labels lost)
+ M3 fmt.go subinclude(): the *build.StringExpr test disabled  RED  failing inputs: `fmt subinclude(LABEL)\nsubinclude("//x:y", …)` is no longer
+    idempotent (second pass differs), `simp o;o;o;n` (hook sees a non-string argument in a "string-only" call)
+ M4 fmt.go format(): the simplify(f) call removed             RED  no failing input exists (formatting without merging still preserves meaning):
+    C38_facts_ok (formatPipeline) breaks -> no-failing-input-found
+ M6 harmless: locals call/next renamed to cur/nxt, the two Force* assignments swapped   GREEN (exit 0, 0 disagreements)
+"""
